@@ -2,9 +2,9 @@ package main
 
 import (
 	"fmt"
-	"strings"
 	"go/token"
 	"go/types"
+	"strings"
 
 	"golang.org/x/tools/go/ssa"
 )
@@ -38,6 +38,7 @@ func deref(t types.Type) types.Type {
 // whether control continues in this block.
 func (x *Exec) instr(fr *frame, ins ssa.Instruction, st *State, r string) (string, bool) {
 	vc := x.vc
+	x.curFrame = fr
 	ls := vc.ls
 	switch i := ins.(type) {
 	case *ssa.DebugRef:
@@ -203,7 +204,7 @@ func (x *Exec) instr(fr *frame, ins ssa.Instruction, st *State, r string) (strin
 		for _, rv := range i.Results {
 			vs = append(vs, x.val(fr, rv))
 		}
-		fr.rets = append(fr.rets, retSite{reach: r, vals: vs, st: st.clone(), pos: i.Pos()})
+		fr.rets = append(fr.rets, retSite{reach: r, vals: vs, st: st.clone(), pos: i.Pos(), mark: vc.S.mark()})
 		return r, false
 	case *ssa.Panic:
 		if x.checkPanics && fr.top {
